@@ -27,6 +27,7 @@ type hbSender struct {
 	l         *link
 	sys, comp byte
 	autopilot byte
+	gaps      []time.Duration
 	sentAt    []time.Duration
 }
 
@@ -75,24 +76,104 @@ func c16Body() func(h []dsim.Rec) {
 			duration = 1000 * period
 		}
 	}
-	kinds := []int{epCustom, epTCPServer, epUDPServer}
-	neps := 1 + dsim.Choose(2)
+	// all endpoint kinds, possibly several of one kind (their channels then share a label)
+	kinds := []int{epCustom, epTCPServer, epUDPServer, epCustom, epTCPServer, epUDPServer, epTCPClient, epUDPClient, epSerial, epBroadcast}
+	neps := 1 + dsim.Choose(3)
 	for i := 0; i < neps; i++ {
 		e.addEndpoint(kinds[dsim.Choose(len(kinds))])
 	}
 	cons := &consumer{e: e}
 	e.cons = cons
+	sharedIdentities := dsim.Choose(3) == 2
+	var links []*link
+	var senders []*hbSender
+	d := &driverSet{e: e}
+	// attach draws the senders of a link and starts them (called when the link exists)
+	attach := func(l *link) {
+		dsim.EnsureReleased("attach")
+		ns := 1 + dsim.Choose(3)
+		var mine []*hbSender
+		for k := 0; k < ns; k++ {
+			s := &hbSender{l: l, sys: byte(20 + 10*l.id + k), comp: byte(1 + dsim.Choose(3)), autopilot: dsim.Pick(byte(3), 3, 0, 12, 8)}
+			if sharedIdentities {
+				// the same vehicle is heard on several channels
+				s.sys, s.comp = byte(20+k), 1
+				count("cov:identity-on-several-channels")
+			} else if k == 0 && dsim.Choose(6) == 0 {
+				// a flight controller that shares the node's system id (the companion-computer set-up)
+				s.sys, s.comp = cfg.sysID, cfg.effCompID()+1+byte(dsim.Choose(3))
+				count("cov:sender-with-the-nodes-system-id")
+			}
+			n := 1 + dsim.Choose(6)
+			for i := 0; i < n; i++ {
+				s.gaps = append(s.gaps, dsim.Pick(time.Duration(dsim.Choose(2000))*time.Millisecond, time.Duration(dsim.Choose(40))*time.Second, 29*time.Second, 30*time.Second, 31*time.Second))
+			}
+			mine = append(mine, s)
+		}
+		e.mu.Lock()
+		links = append(links, l)
+		senders = append(senders, mine...)
+		e.mu.Unlock()
+		for _, s := range mine {
+			s := s
+			d.spawn("sender", func() {
+				for _, g := range s.gaps {
+					dsim.Sleep(g)
+					if e.now() > duration-time.Second {
+						return
+					}
+					e.mu.Lock()
+					s.sentAt = append(s.sentAt, e.now())
+					e.mu.Unlock()
+					if s.l.sendHeartbeatAs(s.sys, s.comp, s.autopilot) != nil {
+						return
+					}
+					dsim.EnsureReleased("sender")
+					if dsim.Choose(3) == 0 && cfg.hasDialect() {
+						s.l.send(sendValid, false) //nolint: other traffic
+					}
+				}
+			})
+		}
+	}
+	// endpoints whose peer is reached by the node: the peer listens before the node starts
+	for _, ep := range e.cfg.eps {
+		ep := ep
+		first := true
+		onLink := func(l *link) {
+			if ep.kind == epSerial && l.ordinal == 0 {
+				return // the existence test of Initialize
+			}
+			if !first {
+				return
+			}
+			first = false
+			d.spawn("attach", func() { attach(l) })
+		}
+		var err error
+		switch ep.kind {
+		case epTCPClient:
+			_, err = e.tcpServerPeer(ep, onLink)
+		case epSerial:
+			e.serialPeer(ep, onLink)
+		case epUDPClient, epBroadcast:
+			_, err = e.packetPeer(ep, onLink)
+		}
+		if err != nil {
+			dsim.Failf("harness", "peer listen: %v", err)
+			return nil
+		}
+	}
 	if err := e.startNode(); err != nil {
 		dsim.Failf("harness", "node did not initialise: %v", err)
 		return nil
 	}
 	nodeStart := e.now()
 	dsim.Go("consumer", cons.run)
-	var links []*link
 	for _, ep := range e.cfg.eps {
 		switch ep.kind {
 		case epCustom:
-			links = append(links, e.customLink(ep))
+			attach(e.customLink(ep))
 		case epTCPServer, epUDPServer:
 			np := 1 + dsim.Choose(2)
 			for i := 0; i < np; i++ {
@@ -110,46 +191,8 @@ func c16Body() func(h []dsim.Rec) {
 					dsim.Failf("harness", "peer: %v", err)
 					return nil
 				}
-				links = append(links, l)
+				attach(l)
 			}
-		}
-	}
-	// senders
-	sharedIdentities := dsim.Choose(3) == 2
-	var senders []*hbSender
-	d := &driverSet{e: e}
-	for _, l := range links {
-		l := l
-		ns := 1 + dsim.Choose(3)
-		for k := 0; k < ns; k++ {
-			s := &hbSender{l: l, sys: byte(20 + 10*l.id + k), comp: byte(1 + dsim.Choose(3)), autopilot: dsim.Pick(byte(3), 3, 0, 12, 8)}
-			if sharedIdentities {
-				// the same vehicle is heard on several channels
-				s.sys, s.comp = byte(20+k), 1
-				count("cov:identity-on-several-channels")
-			}
-			senders = append(senders, s)
-			n := 1 + dsim.Choose(6)
-			var gaps []time.Duration
-			for i := 0; i < n; i++ {
-				gaps = append(gaps, dsim.Pick(time.Duration(dsim.Choose(2000))*time.Millisecond, time.Duration(dsim.Choose(40))*time.Second, 29*time.Second, 30*time.Second, 31*time.Second))
-			}
-			d.spawn("sender", func() {
-				for _, g := range gaps {
-					dsim.Sleep(g)
-					if e.now() > duration-time.Second {
-						return
-					}
-					s.sentAt = append(s.sentAt, e.now())
-					if s.l.sendHeartbeatAs(s.sys, s.comp, s.autopilot) != nil {
-						return
-					}
-					dsim.EnsureReleased("sender")
-					if dsim.Choose(3) == 0 && cfg.hasDialect() {
-						s.l.send(sendValid, false) //nolint: other traffic
-					}
-				}
-			})
 		}
 	}
 	dsim.Sleep(duration - e.now())
@@ -423,7 +466,7 @@ func init() {
 		Nontrivial: func(r *dsim.Result) bool {
 			return r.Probes["cov:heartbeat-ticks-checked"]+r.Probes["cov:burst-checked"] > 0
 		},
-		ProbeUniverse: []string{"cov:heartbeat-ticks-checked", "cov:burst-checked", "cov:second-burst"},
+		ProbeUniverse: []string{"cov:heartbeat-ticks-checked", "cov:burst-checked", "cov:second-burst", "cov:sender-with-the-nodes-system-id", "cov:identity-on-several-channels"},
 		Real:          []string{"gomavlib (Node, nodeHeartbeat, nodeStreamRequest, Channel; instrumented with scheduling points only)", "pkg/frame", "pkg/message", "pkg/dialect", "pkg/streamwriter"},
 		Stub:          []string{"goroutine scheduler (dsim)", "clock (synctest)", "net sockets, pion UDP listener", "crypto/rand"},
 	})
